@@ -16,7 +16,7 @@ META = {
     "min_obs": {"all": {"irv_pairs": 150, "sntv_pairs": 150, "seqrcv_pairs": 150, "toptwo_checked": 150, "alaska_pairs": 100,
                         "pairs_with_randomness": 50, "irv_pairs_compared": 100, "sntv_pairs_compared": 100,
                         "seqrcv_pairs_compared": 80, "toptwo_compared": 100, "alaska_pairs_compared": 60,
-                        "alaska_full_weight_transfer_pairs": 10}},
+                        "alaska_full_weight_transfer_pairs": 10, "default_argument_pairs_compared": 100}},
 }
 
 
@@ -180,7 +180,47 @@ def check_alaska(ctx, case):
             break
 
 
+def check_defaults(ctx, case):
+    """the alias relations also hold for the constructors' DEFAULT arguments (quota, simultaneous, tiebreak, transfer): bare
+    IRV(p) vs STV(p, m=1), SNTV(p, m) vs Plurality(p, m), SequentialRCV(p, m) vs STV(p, m, transfer=<full weight>)"""
+    import votekit.elections as el
+    from ..core import observe
+
+    spec, m = case["profile"], case["m"]
+    prof = canon.build_profile(spec)
+    ctx.case(case, nontrivial=len(spec["cands"]) >= 3)
+    pairs = [("IRV(p) vs STV(p, m=1)", lambda: el.IRV(prof), lambda: el.STV(prof, m=1)),
+             (f"SNTV(p, {m}) vs Plurality(p, {m})", lambda: el.SNTV(prof, m=m), lambda: el.Plurality(prof, m=m)),
+             (f"SequentialRCV(p, {m}) vs STV(p, {m}, transfer=full weight)", lambda: el.SequentialRCV(prof, m=m),
+              lambda: el.STV(prof, m=m, transfer=rules.full_weight_transfer))]
+    for label, fa, fb in pairs:
+        ra = rng.Rng("script", script=[], policy="first")
+        with ra:
+            oa = observe(fa)
+        rb = rng.Rng("script", script=[], policy="first")
+        with rb:
+            ob = observe(fb)
+        ctx.count("default_argument_pairs")
+        if [n for _, n in ra.trace] != [n for _, n in rb.trace]:
+            ctx.count("different_choice_points_not_compared")
+            continue
+        if oa.ok != ob.ok or (not oa.ok and oa.etype != ob.etype):
+            ctx.fail(f"{label} (default arguments): one side raised, the other did not", case, {"a": repr(oa)[:200], "b": repr(ob)[:200]})
+            return
+        if oa.ok:
+            ctx.count("default_argument_pairs_compared")
+            if canon.outcome_c(oa.value) != canon.outcome_c(ob.value):
+                ctx.fail(f"{label} (default arguments): rounds differ", case,
+                         {"a": canon.outcome_c(oa.value), "b": canon.outcome_c(ob.value)})
+                return
+            if hasattr(oa.value, "threshold") and oa.value.threshold != ob.value.threshold:
+                ctx.fail(f"{label} (default arguments): thresholds differ", case, {})
+                return
+
+
 def check_case(ctx, case):
+    if case.get("k") == "defaults":
+        return check_defaults(ctx, case)
     k = case["k"]
     cfg = case["cfg"]
     if k == "irv":
@@ -208,6 +248,9 @@ def run(ctx):
         c = cases.ranking_case(rnd, rule, maxn=maxn)
         if c["cfg"].get("transfer") == "random":
             c["cfg"]["transfer"] = "fractional"
+        if i % 10 == 3 and k != "alaska":
+            ctx.guard("check", check_case, ctx, {"k": "defaults", "profile": c["profile"],
+                                                 "m": min(c["cfg"].get("m", 1), len(c["profile"]["cands"]))})
         cc = {"k": k, "cfg": c["cfg"], "profile": c["profile"], "max_runs": 3 if ctx.quick else 10}
         if k == "alaska" and i % 4 == 1:
             cc["full_weight"] = True  # the transfer option handed to Alaska must reach its STV stage
